@@ -38,6 +38,7 @@ CALLS = {
     'athlib.wma_athlon_age_grade': [],
     'athlib.utils.schema_valid': [("utils.schema_valid", ["json/performance.json"]), ("utils.schema_valid", ["json/race.json"])],
     'athlib.utils.valid_against_schema': [("utils.valid_against_schema", ["sample-jsons/athlete.json", "json/athlete.json"]),
+                                          ("utils.valid_against_schema", ["sample-jsons/performance_minimal.json", "json/performance.json"]),
                                           ("utils.valid_against_schema", ["sample-jsons/event.json", "json/event.json"])],
 }
 
@@ -77,7 +78,7 @@ def tracer(frame, event, arg):
     if event == 'line' and not state['hit'] and frame.f_lineno > LINE and state.get('seen_site'):
         state['hit'] = True
         reached.set()
-        resume.wait(20)
+        resume.wait(8)
     if event == 'line' and frame.f_lineno == LINE:
         state['seen_site'] = True
     return tracer
@@ -91,12 +92,115 @@ def thread_a():
         reached.set()
 ta = threading.Thread(target=thread_a)
 ta.start()
-reached.wait(20)
+reached.wait(6)
 out['paused'] = state['hit']
 out['b'] = call(B)
 resume.set()
 ta.join(30)
 print(json.dumps(out))
+'''
+
+SCHED2 = r'''
+import sys, json, threading, io, contextlib, os
+sys.path.insert(0, os.environ.get('ATHLIB_TREE', '/repo'))
+spec = json.loads(sys.argv[1])
+FILE, LINE, A, B = spec['file'], spec['line'], spec['a'], spec['b']
+import athlib
+def resolve(path):
+    o = athlib
+    for p in path.split('.'):
+        o = getattr(o, p)
+    return o
+def call(c):
+    try:
+        with contextlib.redirect_stdout(io.StringIO()):
+            return ['ret', repr(resolve(c[0])(*c[1]))]
+    except Exception as e:
+        return ['exc', type(e).__name__]
+class Ctl(object):
+    def __init__(self):
+        self.reached = threading.Event(); self.resume = threading.Event(); self.hit = False; self.seen = False
+def mk_tracer(ctl):
+    def tracer(frame, event, arg):
+        if frame.f_code.co_filename != FILE:
+            return tracer if event == 'call' and FILE.split('/')[-2] in frame.f_code.co_filename else None
+        if event == 'line' and not ctl.hit and ctl.seen and frame.f_lineno != LINE:
+            ctl.hit = True
+            ctl.reached.set()
+            ctl.resume.wait(8)
+        if event == 'line' and frame.f_lineno == LINE:
+            ctl.seen = True
+        return tracer
+    return tracer
+out = {}
+def runner(name, c, ctl):
+    sys.settrace(mk_tracer(ctl))
+    try:
+        out[name] = call(c)
+    finally:
+        sys.settrace(None)
+        ctl.reached.set()
+ca, cb = Ctl(), Ctl()
+ta = threading.Thread(target=runner, args=('a', A, ca)); tb = threading.Thread(target=runner, args=('b', B, cb))
+ta.start(); ca.reached.wait(6)            # A has passed the write site and is paused
+tb.start(); cb.reached.wait(6)            # B has passed it too (or finished)
+out['paused'] = [ca.hit, cb.hit]
+ca.resume.set(); ta.join(30)               # A runs to its end first
+cb.resume.set(); tb.join(30)               # then B continues
+print(json.dumps(out))
+'''
+
+LOCKLEAK = r'''
+import sys, json, threading, io, contextlib, os
+sys.path.insert(0, os.environ.get('ATHLIB_TREE', '/repo'))
+spec = json.loads(sys.argv[1])
+import athlib
+def resolve(path):
+    o = athlib
+    for p in path.split('.'):
+        o = getattr(o, p)
+    return o
+def call(c):
+    try:
+        with contextlib.redirect_stdout(io.StringIO()):
+            return ['ret', repr(resolve(c[0])(*c[1]))]
+    except Exception as e:
+        return ['exc', type(e).__name__]
+out = {}
+def ta():
+    out['a'] = call(spec['a'])
+def tb():
+    out['b'] = call(spec['b'])
+t1 = threading.Thread(target=ta); t1.start(); t1.join(20)
+t2 = threading.Thread(target=tb, daemon=True); t2.start(); t2.join(5)
+out['b_blocked'] = t2.is_alive()
+sys.__stdout__.write(json.dumps(out) + '\n'); sys.__stdout__.flush()     # (thread B may still hold the stdout redirection)
+os._exit(0)
+'''
+
+THREADDIFF = r'''
+import sys, json, threading, io, contextlib, os
+sys.path.insert(0, os.environ.get('ATHLIB_TREE', '/repo'))
+calls = json.loads(sys.stdin.read())
+import athlib
+def resolve(path):
+    o = athlib
+    for p in path.split('.'):
+        o = getattr(o, p)
+    return o
+def call(c):
+    try:
+        with contextlib.redirect_stdout(io.StringIO()):
+            return ['ret', repr(resolve(c[0])(*c[1]))]
+    except Exception as e:
+        return ['exc', type(e).__name__]
+main = [call(c) for c in calls]
+other = []
+def run():
+    for c in calls:
+        other.append(call(c))
+t = threading.Thread(target=run); t.start(); t.join(600)
+print(json.dumps([main, other]))
 '''
 
 SEQ = r'''
@@ -146,15 +250,147 @@ def forced_schedule(site):
     return dict(tried=tried), False
 
 
+def forced_schedule2(site):
+    """two pre-emptions: A and B are both paused right after the write site, A then runs to its end, then B continues"""
+    chain = site.get('chain') or []
+    cands = list(CALLS.get(chain[0] if chain else None) or [])
+    tried = 0
+    for a in cands[:3]:
+        for b in cands[:3]:
+            tried += 1
+            got = _py(SCHED2, dict(file=site['file'], line=site['line'], a=a, b=b))
+            if not got or not all(got.get('paused') or [False]):
+                continue
+            want_a, want_b = _py(SEQ, a), _py(SEQ, b)
+            if got.get('a') != want_a or got.get('b') != want_b:
+                return dict(thread_a=a, thread_b=b, schedule='A and B both paused after %s:%d, A finishes, then B continues' % (site['file'], site['line']),
+                            observed=dict(a=got.get('a'), b=got.get('b')), sequential=dict(a=want_a, b=want_b)), True
+    return dict(tried=tried), False
+
+
+def lock_leak(site):
+    """a call that raises while the lock is held, then a valid call from another thread: does it ever return?"""
+    chain = site.get('chain') or []
+    cands = list(CALLS.get(chain[0] if chain else None) or []) or [c for v in CALLS.values() for c in v if c[0].startswith('wma')]
+    for good in cands[:2]:
+        for pos in range(len(good[1])):
+            if not isinstance(good[1][pos], str):
+                continue
+            bad_args = list(good[1])
+            bad_args[pos] = '?!no-such-value'
+            a = [good[0], bad_args]
+            if (_py(SEQ, a) or ['ret'])[0] != 'exc':
+                continue
+            got = _py(LOCKLEAK, dict(a=a, b=good))
+            if got and got.get('b_blocked'):
+                return dict(thread_a=a, thread_b=good, observed='thread A raised %r; thread B, started afterwards, did not return within 5 s' % (got.get('a'),),
+                            sequential=dict(b=_py(SEQ, good))), True
+    return dict(tried='lock leak'), False
+
+
+def thread_calls():
+    """sample calls for the main-thread / other-thread differential: the CALLS table plus number marks on the Sportshall grid"""
+    out = [list(c) for v in CALLS.values() for c in v]
+    sh = real_module('athlib.sportshall_score')
+    try:
+        evs = list(sh.RAWDATA[0][1:])
+    except Exception:
+        evs = []
+    for ev in evs:
+        for k in range(0, 1300, 7):
+            out.append(['sportshall_score', [ev, k / 100]])
+            out.append(['sportshall_score', [ev, k / 10]])
+    for k in range(900, 1500, 3):
+        out.append(['athlon_score', ['M', '100', k / 100]])
+        out.append(['hungarian_score', ['M', 'OUT', '100', k / 100]])
+        out.append(['tyrving_score', ['M', 15, '100', k / 100]])
+        out.append(['qkids_score', ['QKSEC', '100', k / 100]]) if hasattr(__import__('athlib'), 'qkids_score') else None
+    return out
+
+
+def thread_differential(run):
+    """every sample call gives, in a thread other than the one that imported the library, the answer it gives in the importing
+    thread (state that is per thread - the decimal context, threading.local - must not carry configuration)"""
+    calls = thread_calls()
+    r = subprocess.run([sys.executable, '-c', THREADDIFF], input=json.dumps(calls), capture_output=True, text=True,
+                       cwd=os.environ.get('ATHLIB_TREE', '/repo'), timeout=900)
+    name = 'threads/answer-in-another-thread-equals-answer-in-the-importing-thread'
+    if r.returncode != 0 or not r.stdout.strip():
+        run.record(name, 'ground', 'unknown', 'ground-evaluation', 0.0, 'threads', 'harness failed: %s' % r.stderr[-300:])
+        return 0
+    main, other = json.loads(r.stdout.strip().splitlines()[-1])
+    bad = [(c, m, o) for c, m, o in zip(calls, main, other) if m != o]
+    run.record(name, 'ground', 'refuted' if bad else 'proved', 'ground-evaluation', 0.0, 'threads')
+    if bad:
+        c, m, o = bad[0]
+        run.violation(name, dict(call='athlib.%s(*%r)' % (c[0], c[1]), observed=dict(importing_thread=m, other_thread=o), count=len(bad),
+                                 threadcall=c, solver='ground evaluation'), True)
+    return len(calls)
+
+
+def ambient_state(run):
+    """the package does not configure per-thread ambient state (decimal context, threading.local attributes) anywhere - module
+    level included: such a setting exists only in the thread that made it"""
+    import ast, inspect, sys as _sys
+    found = []
+    for mn, mod in sorted(_sys.modules.items()):
+        if not (mn == 'athlib' or mn.startswith('athlib.')) or mod is None or not getattr(mod, '__file__', None) or not mod.__file__.endswith('.py'):
+            continue
+        try:
+            tree = ast.parse(open(mod.__file__).read())
+        except Exception:
+            continue
+        for n in ast.walk(tree):
+            tgt = None
+            if isinstance(n, (ast.Assign, ast.AugAssign)):
+                for t in (n.targets if isinstance(n, ast.Assign) else [n.target]):
+                    if isinstance(t, ast.Attribute) and isinstance(t.value, ast.Call):
+                        f = t.value.func
+                        nm = f.id if isinstance(f, ast.Name) else f.attr if isinstance(f, ast.Attribute) else ''
+                        if nm in ('getcontext', 'localcontext'):
+                            tgt = 'decimal context .%s' % t.attr
+                    if isinstance(t, ast.Attribute) and isinstance(t.value, ast.Name) and isinstance(getattr(mod, t.value.id, None), __import__('threading').local):
+                        tgt = 'threading.local attribute %s.%s' % (t.value.id, t.attr)
+            elif isinstance(n, ast.Call):
+                f = n.func
+                nm = f.id if isinstance(f, ast.Name) else f.attr if isinstance(f, ast.Attribute) else ''
+                if nm in ('setcontext', 'setlocale'):
+                    tgt = '%s()' % nm
+            if tgt:
+                found.append((mod.__file__, n.lineno, tgt))
+    name = 'frame/no-per-thread-ambient-state-is-configured'
+    run.record(name, 'frame', 'refuted' if found else 'proved', 'frame-analysis', 0.0, 'frames')
+    return found
+
+
 def replay(rep):
+    if rep.get('threadcall'):
+        c = rep['threadcall']
+        r = subprocess.run([sys.executable, '-c', THREADDIFF], input=json.dumps([c]), capture_output=True, text=True,
+                           cwd=os.environ.get('ATHLIB_TREE', '/repo'), timeout=300)
+        main, other = json.loads(r.stdout.strip().splitlines()[-1])
+        print('replay %s: %r importing thread -> %r, other thread -> %r' % (rep['obligation'], c, main[0], other[0]))
+        print('VIOLATION reproduced' if main != other else 'not reproduced on this tree')
+        return 1 if main != other else 0
     site = rep.get('site')
     if not site:
         print('no site in the replay file')
         return 1
-    w, bad = forced_schedule(site)
+    w, bad = schedule_for(site)
     print('replay %s: forced pre-emption after %s:%s -> %r' % (rep['obligation'], site['file'], site['line'], w))
     print('VIOLATION reproduced' if bad else 'not reproduced on this tree')
     return 1 if bad else 0
+
+
+def schedule_for(site):
+    if site.get('kind') == 'lock acquire':
+        return lock_leak(site)
+    w, bad = forced_schedule(site)
+    if not bad:
+        w2, bad = forced_schedule2(site)
+        if bad:
+            w = w2
+    return w, bad
 
 
 def main(tier, seed):
@@ -184,12 +420,26 @@ def main(tier, seed):
         if e:
             run.known_finding(e)
             continue
-        w, bad = forced_schedule(s) if s.get('kind') != 'unprotected read' else ({}, False)
+        import time as _t
+        t_rep = _t.time()
+        if run.extra.get('replay_seconds', 0) < (120 if tier == 'quick' else 1200) and s.get('kind') != 'unprotected read':
+            w, bad = schedule_for(s)
+        else:
+            w, bad = dict(skipped='replay budget of this run used up'), False
+        run.extra['replay_seconds'] = run.extra.get('replay_seconds', 0) + _t.time() - t_rep
         run.violation(name, dict(call='write site %s:%d in %s (%s)' % (s['file'], s['line'], s['function'], s['location']), observed=w, reason=s['why'],
                                  site=dict(file=s['file'], line=s['line'], chain=s.get('chain'), function=s['function'], location=s['location'], kind=s.get('kind')),
                                  solver='frame analysis: %s' % s['why']), bad)
     run.sample(dict(sites=[dict(function=s['function'], line=s['line'], location=s['location'], verdict='accepted: ' + s['why'] if s['ok'] else 'REJECTED: ' + s['why'])
                            for s in sites][:12]))
+    amb = ambient_state(run)
+    ncalls = thread_differential(run)
+    if amb and not any(v['obligation'].startswith('threads/') for v in run.violations):
+        f, ln, what = amb[0]
+        run.violation('frame/no-per-thread-ambient-state-is-configured', dict(call='%s:%d sets %s' % (f, ln, what), observed='per-thread state configured by the package',
+                                                                               site=None, solver='frame analysis'), False)
+    run.bounded.append(dict(what='main-thread / other-thread differential of the sample calls (incl. number marks on the Sportshall grid)', bound='%d calls' % ncalls,
+                            evaluations=ncalls, distinct_nontrivial=ncalls, decides='per-thread ambient state (bounded)'))
     run.extra['functions_in_the_call_graph'] = len(an.infos)
     run.extra['write_sites'] = len(sites)
     # bounded smoke: hammer the entry points from threads (never decides; catches crashes of the harness assumptions)
